@@ -194,3 +194,5 @@ func TestVerifC07Websocket(t *testing.T) {
 	}
 	vC07Drive(t, decs, helpers, fams, 500, 6000)
 }
+
+func FuzzVerifC07Websocket(f *testing.F) { vC07FuzzTarget(f, TestVerifC07Websocket) }
